@@ -175,6 +175,18 @@ CHECKS = {
         "Pool points differ by much more than 1e-3(1+|x|); expected constraint values come from a fresh instance (normalization itself: C08).",
         "DESIGN.md §3 C07",
     ),
+    "C09": (
+        "exploration",
+        "exhaustive enumeration of masks x methods x start modes + Hypothesis; trace validity predicate over evaluator rows, reported results and the vectors exchanged with SciPy",
+        "Every mask for n<=4 x {slsqp, l-bfgs-b, nelder-mead, powell, cobyla, DE, vectorized DE, scripted request sequences} x start vector from the "
+        "configuration or from run_step(variables=), nested plans (inner optimization owns the complementary mask) for slsqp/nelder-mead, and random "
+        "initial values, 1-3 samplers assigned also to fixed variables, VariableScaler, several realizations: in every evaluator row (unperturbed and "
+        "perturbed), every reported variables/perturbed_variables array and every vector SciPy sees, fixed entries must equal the start value (nested: "
+        "the inner result last delivered / the value requested by the outer optimizer), fixed gradient entries must be exactly 0.0 and SciPy must only "
+        "see free-length vectors (real SciPy runs with the objective wrapped).",
+        "Exact equality without transforms, 8 ulp with a scaler; nested runs are generated without transforms (result domain of a nested plan is unspecified).",
+        "DESIGN.md §3 C09",
+    ),
 }
 
 NOT_YET = "check not built yet in this session (planned, see DESIGN.md §3)"
